@@ -250,13 +250,13 @@ def run(chk, R, tier, seed):
         st, jd = affine_sub(chk, rng, TEMP, rows, "temperature",
                             "Temperature", fixed=fx)
         cases.append(Case(st, wrap(jd)))
-    n = 1500 if tier == "quick" else 50000
+    n = 5000 if tier == "quick" else 50000
     for _ in range(n):
         st, jd = affine_sub(chk, rng, TEMP, rows, "temperature",
                             "Temperature")
         cases.append(Case(st, wrap(jd)))
     chk.exhaustive["ordered pairs and triples of temperature units"] = True
     run_cases(chk, R, cases, per_program=80)
-    nw = 40 if tier == "quick" else 1000
+    nw = 120 if tier == "quick" else 1000
     run_cases(chk, R, [synthetic_world(chk, rng, i) for i in range(nw)],
               preload=("quantity",))
